@@ -351,7 +351,53 @@ def _assigned(body, blocks):
     return ls
 
 
-def obligations(name, text, fifo=False, witness=False, helpers=None):
+def natural_loops_by_dominators(body):
+    """{head: blocks} from back edges n->h with h dominating n (non-cleanup blocks only)"""
+    nodes = [n for n, b in body.blocks.items() if not b.cleanup]
+    ns = set(nodes)
+    succ = {n: [s for s in _succ(body.blocks[n].term) if s in ns] for n in nodes}
+    pred = {n: set() for n in nodes}
+    for n in nodes:
+        for s in succ[n]:
+            pred[s].add(n)
+    # reachable from entry
+    reach, stack = {0}, [0]
+    while stack:
+        n = stack.pop()
+        for s in succ[n]:
+            if s not in reach:
+                reach.add(s)
+                stack.append(s)
+    dom = {n: set(reach) for n in reach}
+    dom[0] = {0}
+    changed = True
+    while changed:
+        changed = False
+        for n in sorted(reach):
+            if n == 0:
+                continue
+            ps = [dom[p] for p in pred[n] if p in reach]
+            new = (set.intersection(*ps) if ps else set()) | {n}
+            if new != dom[n]:
+                dom[n] = new
+                changed = True
+    loops = {}
+    for n in reach:
+        for h in succ[n]:
+            if h in dom[n]:
+                blk = loops.setdefault(h, {h})
+                stack = [n]
+                while stack:
+                    q = stack.pop()
+                    if q not in blk:
+                        blk.add(q)
+                        stack.extend(p for p in pred[q] if p in reach)
+    return loops
+
+
+def explore(name, text, helpers=None, cls=None, precise_loops=False):
+    """Sets up one round of check_block (symbolic job, limit, queue; inner loops havocked) and explores it.
+    Returns a dict with the executor, the body, the outcomes and the symbolic parameters."""
     body = parse_body(text)
     bodies = {Executor.short(body): body}
     for hname, htext in (helpers or {}).items():
@@ -360,13 +406,18 @@ def obligations(name, text, fifo=False, witness=False, helpers=None):
                 bodies[hname] = parse_body(htext)
             except Unsupported:
                 pass
-    ex = BlockExecutor(bodies)
+    ex = (cls or BlockExecutor)(bodies)
     heads = sorted(h for h in loop_heads(body) if not body.blocks[h].cleanup)
     if not heads:
         raise Unsupported(f"{name} check_block: no loop found")
     loops = {h: _natural_loop(body, h) for h in heads}
     outer = min(h for h in heads if len(loops[h]) == max(len(x) for x in loops.values()))
     loops = {h: (loops[h] if h == outer else _natural_loop(body, h, exclude={outer})) for h in heads}
+    if precise_loops:
+        pl = natural_loops_by_dominators(body)
+        if set(pl) != set(heads):
+            raise Unsupported(f"{name} check_block: irreducible control flow (loop heads {sorted(heads)} vs dominator back-edge targets {sorted(pl)})")
+        loops = pl
     for h in heads:
         if h != outer and not loops[h] < loops[outer]:
             raise Unsupported(f"{name} check_block: loop at bb{h} is not nested in the main loop at bb{outer}")
@@ -421,6 +472,13 @@ def obligations(name, text, fifo=False, witness=False, helpers=None):
     ex.apply_havoc(s0, body, _assigned(body, loops[outer]))
     ex.loop_havoc = {h: _assigned(body, loops[h]) for h in heads if h != outer}
     outs = ex.run(body, s0, outer)
+    return {"ex": ex, "body": body, "outs": outs, "base": base, "heads": heads, "loops": loops, "outer": outer, "dbg": dbg,
+            "tgt_some": tgt_some, "tgt": tgt, "text": text}
+
+
+def obligations(name, text, fifo=False, witness=False, helpers=None):
+    X = explore(name, text, helpers)
+    ex, body, outs, base, heads, outer, tgt_some, tgt = X["ex"], X["body"], X["outs"], X["base"], X["heads"], X["outer"], X["tgt_some"], X["tgt"]
     res = []
 
     def add(ob, r, **kw):
